@@ -580,6 +580,13 @@ func (ex *Exec) applyGhostUpdatePkg(fr *Frame, st, pre *State, vars map[string]V
 		return
 	}
 	T := obj.T
+	if _, ok := T.Underlying().(*types.Interface); ok && len(obj.L) == 2 {
+		// interface with a unique implementation: the ghost field of the payload
+		if impl := ex.uniqueImpl(T); impl != nil {
+			obj = Val{T: impl, L: []string{obj.L[1]}}
+			T = impl
+		}
+	}
 	if p, ok := T.Underlying().(*types.Pointer); ok {
 		T = p.Elem()
 	}
